@@ -166,4 +166,63 @@ inductive CallerStmt where
 def callerCreatesOnlyViaCmdEpr (l : List CallerStmt) : Bool :=
   l.all (· ≠ .unrecog) && l.contains .callCmdEpr
 
+/-! ### signed node ids
+
+   The remote node id of a request is the value of a NetQASM register: a SIGNED 32-bit integer (`set R0 -3` is
+   valid NetQASM), handed to `cmd_epr` as a Python int.  The lookup loop compares it with `==` against the ids
+   `get_node_id_from_net_config` returns (list indices, never negative), so a negative id equals none of them.
+   The functions below are the functions above with `rid : Int`; `AdjacencyLemmas.lean` proves that they are the
+   `Nat` functions at `idAsNat` (a negative id behaves like the first id that is too large). -/
+
+/-- executioner.py:391-396 on a signed remote id: `node_id == remote_node_id` between a list index and a Python int -/
+def findRemoteI (lt : Name → Name → Bool) (names : List Name) (rid : Int) : Option Name :=
+  names.find? (fun n => (nodeId lt names n).map Int.ofNat == some rid)
+
+def cmdEprGuardI (lt : Name → Name → Bool) (names : List Name) (topo : Option (Topology Name))
+    (me : Name) (rid : Int) : GuardResult Name :=
+  match findRemoteI lt names rid with
+  | none => .err .unknownNode
+  | some r =>
+    if me = r then .err .sameNode
+    else if isAdjacent topo me r = false then .err .notAdjacent
+    else .proceed r
+
+/-- `step` on a signed remote id -/
+def stepI (lt : Name → Name → Bool) (names : List Name) (topo : Option (Topology Name)) (me : Name) (rid : Int)
+    (s : Stmt) (r : Run Name) : Except ExecErr (Run Name) :=
+  match s with
+  | .guardUnknown =>
+    match findRemoteI lt names rid with
+    | none => .error (.guard .unknownNode)
+    | some x => .ok { r with remote := some x }
+  | .guardSelf =>
+    match r.remote with
+    | none => .error .unbound
+    | some x => if me = x then .error (.guard .sameNode) else .ok r
+  | .guardAdjacent =>
+    match r.remote with
+    | none => .error .unbound
+    | some x => if isAdjacent topo me x = false then .error (.guard .notAdjacent) else .ok r
+  | .cmdNew => .ok { r with created := r.created + 1 }
+  | .other => .ok r
+  | .unrecog => .ok { r with mayHaveCreated := true }
+
+def execFromI (lt : Name → Name → Bool) (names : List Name) (topo : Option (Topology Name)) (me : Name) (rid : Int) :
+    List Stmt → Run Name → ExecResult Name
+  | [], r => .done r
+  | s :: l, r =>
+    match stepI lt names topo me rid s r with
+    | .error e => .raised e r
+    | .ok r' => execFromI lt names topo me rid l r'
+
+def execI (lt : Name → Name → Bool) (names : List Name) (topo : Option (Topology Name)) (me : Name) (rid : Int)
+    (l : List Stmt) : ExecResult Name :=
+  execFromI lt names topo me rid l { remote := none, created := 0, mayHaveCreated := false }
+
+/-- the natural number a signed id behaves like: itself when it is not negative, otherwise the number of nodes
+    (the first id that names no node) -/
+def idAsNat (names : List Name) : Int → Nat
+  | .ofNat n => n
+  | .negSucc _ => names.length
+
 end SqVerif.Adjacency
